@@ -13,10 +13,12 @@ import (
 	"crypto/x509/pkix"
 	"encoding/hex"
 	"encoding/json"
+	"errors"
 	"fmt"
 	"net"
 	"os"
 	"sync"
+	"sync/atomic"
 	"time"
 
 	"github.com/tjfoc/gmsm/gmtls"
@@ -43,6 +45,8 @@ type advScenario struct {
 	Msg      string `json:"msg"`
 	Frac     int    `json:"frac"`
 	Fracs    int    `json:"fracs"`
+	Clock    string `json:"clock"` // "now" | "ahead": both endpoints run on Config.Time = wall clock + 10 days
+	Veto     string `json:"veto"`  // "none" | "client" | "server": that side's VerifyPeerCertificate callback refuses
 }
 
 type advPKI struct {
@@ -111,6 +115,8 @@ func loadAdvPKI() (*advPKI, error) {
 				}
 			}
 			m["noipsan"] = m["good"]
+			m["long"] = mk(adv.ca, usage[0], "localhost", ok0, now.Add(480*time.Hour))
+			m["future"] = mk(adv.ca, usage[0], "localhost", now.Add(120*time.Hour), now.Add(480*time.Hour))
 			m["expired"] = mk(adv.ca, usage[0], "localhost", now.Add(-48*time.Hour), now.Add(-24*time.Hour))
 			m["notyet"] = mk(adv.ca, usage[0], "localhost", now.Add(24*time.Hour), now.Add(48*time.Hour))
 			m["wrongname"] = mk(adv.ca, usage[0], "other.example", ok0, ok1)
@@ -126,6 +132,8 @@ func loadAdvPKI() (*advPKI, error) {
 			"untrusted": mk(adv.rogue, signU, "client", ok0, ok1),
 			"expired":   mk(adv.ca, signU, "client", now.Add(-48*time.Hour), now.Add(-24*time.Hour)),
 			"notyet":    mk(adv.ca, signU, "client", now.Add(24*time.Hour), now.Add(48*time.Hour)),
+			"long":      mk(adv.ca, signU, "client", ok0, now.Add(480*time.Hour)),
+			"future":    mk(adv.ca, signU, "client", now.Add(120*time.Hour), now.Add(480*time.Hour)),
 		}
 		adv.roots = poolOf(adv.ca.cert)
 		adv.clientRoots = poolOf(adv.ca.cert)
@@ -204,6 +212,8 @@ func (p *advPKI) makeTLS(now time.Time) error {
 		"expired":           mk(ca, "localhost", both, now.Add(-48*time.Hour), now.Add(-24*time.Hour)),
 		"notyet":            mk(ca, "localhost", both, now.Add(24*time.Hour), now.Add(48*time.Hour)),
 		"wrongname":         mk(ca, "other.example", both, ok0, ok1),
+		"long":              mk(ca, "localhost", both, ok0, now.Add(480*time.Hour)),
+		"future":            mk(ca, "localhost", both, now.Add(120*time.Hour), now.Add(480*time.Hour)),
 		"wrongeku":          mk(ca, "localhost", []stdx509.ExtKeyUsage{stdx509.ExtKeyUsageClientAuth}, ok0, ok1),
 	}
 	if lk, err := rsa.GenerateKey(rand.Reader, 2048); err != nil {
@@ -224,6 +234,8 @@ func (p *advPKI) makeTLS(now time.Time) error {
 		"untrusted": mk(rogue, "client", both, ok0, ok1),
 		"expired":   mk(ca, "client", both, now.Add(-48*time.Hour), now.Add(-24*time.Hour)),
 		"notyet":    mk(ca, "client", both, now.Add(24*time.Hour), now.Add(48*time.Hour)),
+		"long":      mk(ca, "client", both, ok0, now.Add(480*time.Hour)),
+		"future":    mk(ca, "client", both, now.Add(120*time.Hour), now.Add(480*time.Hour)),
 	}
 	if ferr != nil {
 		return ferr
@@ -382,10 +394,10 @@ type advObs struct {
 	Skipped                  string
 	SrvRandom, CliRandom     string
 	Suite, WantSuite         uint16 // negotiated (client's view) / the first suite of the scenario's list
+	VetoCalls                int    // times the refusing VerifyPeerCertificate callback was run
 }
 
-func runAdv(s *advScenario, replay *advReplay, capture *advReplay) (advObs, error) {
-	var o advObs
+func runAdv(s *advScenario, replay *advReplay, capture *advReplay) (o advObs, err error) {
 	p, err := loadAdvPKI()
 	if err != nil {
 		return o, err
@@ -473,6 +485,22 @@ func runAdv(s *advScenario, replay *advReplay, capture *advReplay) (advObs, erro
 		}
 		cc.Certificates = []gmtls.Certificate{cl}
 	}
+	if s.Clock == "ahead" {
+		at := func() time.Time { return time.Now().Add(240 * time.Hour) }
+		sc.Time, cc.Time = at, at
+	}
+	var vetoCalls int32
+	veto := func(rawCerts [][]byte, _ [][]*x509.Certificate) error {
+		atomic.AddInt32(&vetoCalls, 1)
+		return errors.New("verif: the application refuses this peer")
+	}
+	switch s.Veto {
+	case "client":
+		cc.VerifyPeerCertificate = veto
+	case "server":
+		sc.VerifyPeerCertificate = veto
+	}
+	defer func() { o.VetoCalls = int(atomic.LoadInt32(&vetoCalls)) }()
 	// reproducible randoms: the recorded session, and the replays that share one of its randoms
 	if capture != nil || s.Ske == "same_server_random" {
 		sc.Rand = &detRand{seed: "c08 server"}
